@@ -343,3 +343,126 @@ spec.contract(
                       [N(s.self.df_names.group), N(s.self.df_names.date)])])))])
 
 FUNCTIONS.append('TBR._construct_analysis_data')
+
+
+# ---------------------------------------------------------------------------
+# TBR._fit_pre_period_model (C06 / C05 / C18): WHICH cells the pre-period
+# regression is fitted on.  The regression itself (statsmodels OLS) is an
+# uninterpreted function of the two selected columns; the helper methods
+# _response_vector / _design_matrix are inlined (their bodies are verified as
+# part of this function).
+
+OLSS = sort_named('OLSFit')
+OLSFIT = z3.Function('SM_OLS_FIT', I, I, _fl.RowSet, I, _fl.RowSet,
+                     z3.BoolSort(), OLSS)
+_td.ispec.classes['TBR'].fields.update({
+    'groups': TObj('GroupSemantics'),
+    'pre_period_model': TOpt(TOpaque('OLSFit'))})
+
+ASSUMPTIONS.append(
+    'statsmodels: sm.OLS(y.values, X.values).fit() is a function of the '
+    'cells of y (one column over a set of rows) and of X (one column over a '
+    'set of rows, with or without a leading constant column); '
+    'Series.to_frame() holds the same cells, DataFrame.insert(0, name, 1) '
+    'adds a constant column in place; both series are paired by position '
+    '(the date order of the rows is the subject of _construct_analysis_data)')
+
+
+class VDesign(V):
+  """cntrl_vec.to_frame() (+ optional constant column)"""
+  kind = 'design'
+
+  def __init__(self, col):
+    self.col = col
+    self.const = z3.BoolVal(False)
+
+  def py_getattr(self, ex, name, node):
+    if name == 'insert':
+      def ins(ex_, args, kwargs, n):
+        ok = (len(args) == 3 and not kwargs and
+              z3.is_int_value(z3.simplify(num_term(args[0]))) and
+              z3.simplify(num_term(args[0])).as_long() == 0 and
+              z3.is_int_value(z3.simplify(num_term(args[2]))) and
+              z3.simplify(num_term(args[2])).as_long() == 1)
+        if not ok:
+          ex_.unsupported(n, 'insert other than (0, name, 1)')
+        self.const = z3.BoolVal(True)
+        return NONE
+      return VBound(ins)
+    if name == 'values':
+      return self
+    ex.unsupported(node, 'design matrix attribute %s' % name)
+
+
+class VOLS(V):
+  kind = 'olsmodel'
+
+  def __init__(self, t):
+    self.t = t
+
+  def py_getattr(self, ex, name, node):
+    if name == 'fit':
+      return VBound(lambda ex_, a, k, n: VOpaque(self.t, 'OLSFit'))
+    ex.unsupported(node, 'OLS attribute %s' % name)
+
+
+@lib('statsmodels.api.OLS')
+def _sm_ols(ex, args, kwargs, node):
+  if len(args) != 2 or kwargs:
+    ex.unsupported(node, 'OLS arguments')
+  y, x = args
+  if not (isinstance(y, _fl.VFCol) and isinstance(x, VDesign)):
+    ex.unsupported(node, 'OLS(%s, %s)' % (y.kind, x.kind))
+  if not y.frame.src.eq(x.col.frame.src):
+    ex.unsupported(node, 'OLS over two different frames')
+  return VOLS(OLSFIT(y.frame.src, y.col, y.frame.rows, x.col.col,
+                     x.col.frame.rows, x.const))
+
+
+_orig_col_getattr = _fl.VFCol.py_getattr
+
+
+def _col_getattr(self, ex, name, node):
+  if name == 'values':
+    return self
+  if name == 'to_frame':
+    return VBound(lambda ex_, a, k, n: VDesign(self))
+  return _orig_col_getattr(self, ex, name, node)
+
+
+_fl.VFCol.py_getattr = _col_getattr
+
+
+def _pre_rows(s, group):
+  o = s.self
+  a = unwrap(o.analysis_data)
+  r = z3.Int('r!pre')
+  return z3.Lambda([r], z3.And(
+      z3.IsMember(r, a.rows),
+      _fl.COLV(a.src, N(o.df_names.period), r) == N(o.periods.pre),
+      _fl.LABEL(a.src, r) == N(group)))
+
+
+spec.inline.update({'TBR._response_vector', 'TBR._design_matrix'})
+spec.contract(
+    'TBR._fit_pre_period_model', params={},
+    modifies=['self.pre_period_model'], props=('C06', 'C05', 'C18'),
+    requires=[('both groups have pre-period rows in the aggregated frame '
+               '(else .loc raises KeyError)', lambda s: z3.And(
+                   _pre_rows(s, s.self.groups.treatment) != z3.EmptySet(I),
+                   _pre_rows(s, s.self.groups.control) != z3.EmptySet(I)))],
+    ensures=[('C06 the pre-period model is the OLS fit of the treatment '
+              'group\'s target cells on a constant and the control group\'s '
+              'target cells, over exactly the rows whose period is the '
+              'pre-period (no other period, assigned or not)',
+              lambda s: z3.And(
+                  z3.Not(unwrap(s.self.pre_period_model).none),
+                  _fl.same_term(
+                      unwrap(s.self.pre_period_model).val.t, OLSFIT(
+                          unwrap(s.self.analysis_data).src, N(s.self.target),
+                          _pre_rows(s, s.self.groups.treatment),
+                          N(s.self.target),
+                          _pre_rows(s, s.self.groups.control),
+                          z3.BoolVal(True)), ('SM_OLS_FIT',))))])
+
+FUNCTIONS.append('TBR._fit_pre_period_model')
